@@ -11,7 +11,9 @@ struct KP { long long key; long long payload; };
 VF_DECOY_ORDER(KP, key)
 struct KPLess { bool operator()(const KP& a, const KP& b) const { return a.key < b.key; } };
 
-template <class T, class Cmp, class Mk, class Un>
+// RankT: the integer type in which the caller passes the rank (and receives the selection offset); the algorithm's internal arithmetic (negative skew,
+// rank / (n + 1) - leftsize) must not depend on its signedness or width
+template <class T, class RankT, class Cmp, class Mk, class Un>
 static void run_one(Out& out, const std::vector<std::vector<long long>>& keys, int cmpk, int mode, long long onerank, Cmp cmp, Mk mk, Un un) {
     size_t m = keys.size();
     std::vector<std::vector<T>> data(m);
@@ -25,15 +27,15 @@ static void run_one(Out& out, const std::vector<std::vector<long long>>& keys, i
     sj += "]";
     auto part = [&](long long r) {
         std::vector<It> offs(m);
-        tlx::multisequence_partition(seqs.begin(), seqs.end(), r, offs.begin(), cmp);
+        tlx::multisequence_partition(seqs.begin(), seqs.end(), static_cast<RankT>(r), offs.begin(), cmp);
         std::vector<long long> p;
         for (size_t i = 0; i < m; ++i) p.push_back(offs[i] - seqs[i].first);
         return jarr(p);
     };
     auto sel = [&](long long r) {
-        long long off = -1;
-        T v = tlx::multisequence_selection<T>(seqs.begin(), seqs.end(), r, off, cmp);
-        return "[" + std::to_string(un(v)) + "," + std::to_string(off) + "]";
+        RankT off = static_cast<RankT>(77);
+        T v = tlx::multisequence_selection<T>(seqs.begin(), seqs.end(), static_cast<RankT>(r), off, cmp);
+        return "[" + std::to_string(un(v)) + "," + std::to_string((long long)off) + "]";
     };
     if (mode == 0) {
         std::string pj = "[", sl = "[";
@@ -58,9 +60,11 @@ int main(int argc, char** argv) {
         std::vector<std::vector<long long>> keys(m);
         for (auto& k : keys) { size_t n; is >> n; k.resize(n); for (auto& x : k) is >> x; }
         long long r = 0; if (mode == 1) is >> r;
-        run_one<long long>(out, keys, 0, mode, r, std::less<long long>(), [](long long k, long long) { return k; }, [](long long v) { return v; });
-        run_one<long long>(out, keys, 1, mode, r, std::greater<long long>(), [](long long k, long long) { return 1000 - k; }, [](long long v) { return 1000 - v; });
-        run_one<KP>(out, keys, 2, mode, r, KPLess(), [](long long k, long long s) { return KP{k, s}; }, [](const KP& v) { return v.key; });
+        run_one<long long, long long>(out, keys, 0, mode, r, std::less<long long>(), [](long long k, long long) { return k; }, [](long long v) { return v; });
+        run_one<long long, size_t>(out, keys, 1, mode, r, std::greater<long long>(), [](long long k, long long) { return 1000 - k; }, [](long long v) { return 1000 - v; });
+        run_one<KP, int>(out, keys, 2, mode, r, KPLess(), [](long long k, long long s) { return KP{k, s}; }, [](const KP& v) { return v.key; });
+        run_one<long long, unsigned long long>(out, keys, 0, mode, r, std::less<long long>(), [](long long k, long long) { return k; }, [](long long v) { return v; });
+        run_one<KP, unsigned int>(out, keys, 2, mode, r, KPLess(), [](long long k, long long s) { return KP{k, s}; }, [](const KP& v) { return v.key; });
     }
     out.flush();
     return 0;
